@@ -288,7 +288,9 @@ mem_replace_arr(const void *src, const size_t src_size, const size_t repl_count,
 			return (ENOBUFS);
 		memmove(dst_cur, src_cur_prev, i);
 		dst_cur += i;
-		memcpy(dst_cur, dst_repl[first_idx], dst_repl_counts[first_idx]);
+		if (0 != dst_repl_counts[first_idx]) { /* Empty replacement may be NULL. */
+			memcpy(dst_cur, dst_repl[first_idx], dst_repl_counts[first_idx]);
+		}
 		dst_cur += dst_repl_counts[first_idx];
 		src_cur_prev = (founded[first_idx] + src_repl_counts[first_idx]);
 		ret_count ++;
